@@ -257,8 +257,7 @@ def mirror(point: PointType, normal: VectorType, origin: PointType):
     normal = unit_vector(normal)
     origin = np.asarray(origin)
 
-    point -= origin
-    rotated = point.dot(mirror_matrix(normal))
+    rotated = (point - origin).dot(mirror_matrix(normal))
     rotated += origin
 
     return rotated
